@@ -158,5 +158,24 @@ PROPS = {
         "trusted_base": ["Model/Datapath.lean, Model/Fib.lean (hand-written)", "hook plugin/datapath/zz_verif_export_linux.go"],
         "design_ref": "DESIGN.md §4 C13",
     },
+    "C18": {
+        "lean": ["C18"],
+        "required": ["C18.c18_host_network_unchanged", "C18.c18_ignored_unchanged", "C18.c18_no_match_unchanged", "C18.c18_conflict_denied",
+                     "C18.c18_complete_spec", "C18.c18_vsw_sg_present_partial", "C18.c18_non_eth0_unfilled_witness", "C18.c18_device_request",
+                     "C18.c18_zone_subset", "C18.c18_match_sound", "C18.c18_fixed_needs_stable_name", "C18.c18_daemonset_no_affinity"],
+        "rule": "pods from the product of host-network / ignore label / container count / owner kind (StatefulSet, ReplicaSet, DaemonSet) / pod-eni flag, with one of: a user pod-networks annotation (1-3 entries, names incl. empty, too long and duplicate, "
+                "0/1/2/11 security groups, missing vSwitches, Fixed/Elastic/unset), a pod-networks-request (1-3 references incl. unknown networks), none, malformed JSON, or conflicting annotations; 0-3 PodNetworking objects (ready or not, Fixed or not, "
+                "pod/namespace selectors that match / do not match / are absent, zone sets); namespace present or not; previous PodENI zone; IPAM type; resource injection; trunk; cluster configuration with/without vSwitches or absent. "
+                "The real podWebhook runs against controller-runtime's fake client, its JSON patch is applied and decoded. non-trivial = patched response; distinct = distinct op line.",
+        "technique": "Lean 4 theorems over a staged model of podWebhook (gate / source / validate / finish); differential correspondence through the real handler with a fake client; Go monitors on the patched pod",
+        "level_text": "Theorems for all pods, definitions and configurations of the model: out-of-scope pods are admitted unchanged, conflicting annotations denied, a patched pod has unique 1-5 byte interface names, <= 10 security groups, an allocation type, "
+                      "Fixed only with a stable name, a device request equal to the network count, a zone term contained in every requested network's zones, none for DaemonSets; matched definitions are ready and accepted by all their selectors. "
+                      "'each entry has vSwitches and security groups' holds for eth0 with a non-empty cluster configuration only (witness theorem + known finding).",
+        "level_note": "Trusted: Lean kernel; Model/Webhook.lean hand-written; label-selector evaluation (k8s.io/apimachinery), JSON decoding and JSON-patch creation are library code: the model takes selector verdicts as inputs; "
+                      "the validating webhook (validate.go) and podNetworkingWebhook are not modelled.",
+        "assumptions": ["the cluster configuration has at most ten security groups (ConfigFromConfigMap enforces it)", "label selectors are evaluated correctly by the Kubernetes library"],
+        "trusted_base": ["Model/Webhook.lean (hand-written)", "hook pkg/controller/webhook/zz_verif_export.go"],
+        "design_ref": "DESIGN.md §4 C18",
+    },
 }
 NOT_APPLICABLE = {}
